@@ -127,7 +127,7 @@ def gen_call(r, cfg, m, rule):
     return {"mode": "request-dict" if dict_mode else "request-instance", "fields": fields}
 
 
-def gen_cfg(r, listed=None, transport=None, add_iam=None, own=None, mixed=False, t3=True):
+def gen_cfg(r, listed=None, transport=None, add_iam=None, own=None, mixed=False, t3=True, iam_rules=None):
     cfg = {"t3": t3}
     if listed is None:
         listed = [a for a in (OPS, IAM, LOC) if r.maybe(0.65)]
@@ -144,12 +144,16 @@ def gen_cfg(r, listed=None, transport=None, add_iam=None, own=None, mixed=False,
         own = [m for m in IAM_METHODS if r.maybe(0.25)] if (r.maybe(0.4) and not cfg["add_iam"]) else []
     cfg["own"] = [] if cfg["add_iam"] else own
     cfg["own_service"] = r.pick(["Library", "Library", "Admin"]) if cfg["own"] else "Library"
+    if iam_rules is None and cfg["own"] and IAM in listed and r.maybe(0.6):
+        # API-defined IAM RPCs next to YAML rules for a subset disjoint from / overlapping with them
+        others = [m for m in IAM_METHODS if m not in cfg["own"]]
+        iam_rules = (others if r.maybe(0.5) else [m for m in others if r.maybe(0.7)]) + ([r.pick(cfg["own"])] if r.maybe(0.4) else [])
     rules = []
     for a in (OPS, IAM, LOC):
         dense = r.pick([0.3, 0.6, 0.9, 1.0])
         p = dense if a in listed else (dense if r.maybe(0.5) else 0.0)
         for (m, _, _) in CANON[a]:
-            if r.maybe(p):
+            if (m in iam_rules) if (a == IAM and iam_rules is not None) else r.maybe(p):
                 rules.append(gen_rule(r, m, mixed=mixed and a == IAM))
                 if r.maybe(0.12):
                     rules.append(gen_rule(r, m))                      # a later rule for the same selector replaces it
@@ -344,6 +348,14 @@ def own_all(cfg):
     return set(cfg.get("own", []))
 
 
+def iam_drop_key(cfg):
+    """signature of "a configured, non-overridden IAM mixin is missing while the API defines IAM-named RPCs":
+    the open defect at HEAD needs an API-defined IAM RPC that HAS a rule in the YAML (then _has_iam_overrides
+    drops all IAM mixins); an API-defined IAM RPC WITHOUT a rule must not cost any mixin — a different failure."""
+    ruled = sorted(m for m in own_all(cfg) if effective_rule(cfg, m) is not None)
+    return "iam-override-drops-all:overriding-rpc-has-rule" if ruled else "iam-override:api-rpc-without-rule-drops-mixins"
+
+
 def expected_exposed(cfg, m):
     """the statement: listed AND has a rule AND (for IAM) not a same-named RPC of the API itself"""
     a = API_OF[m]
@@ -470,7 +482,7 @@ def judge(ctx, cfg, obs, label=""):
         ctx.count("selected", f"{m}:{'yes' if got else 'no'}")
         if want and not got:
             if API_OF[m] == IAM and own_all(cfg):
-                ctx.fail("iam-override-drops-all", f"{m} is listed, has a rule and is not defined by the API, yet mixin_api_methods drops it "
+                ctx.fail(iam_drop_key(cfg), f"{m} is listed, has a rule and is not defined by the API, yet mixin_api_methods drops it "
                          f"because the API defines {sorted(own_all(cfg))}", dict(payload, method=m))
             else:
                 ctx.fail("selection:missing", f"{m} is listed and has a rule but is not selected", dict(payload, method=m))
@@ -512,7 +524,7 @@ def judge(ctx, cfg, obs, label=""):
             want = expected_exposed(cfg, m) or legacy or m in own_here
             if want and m not in present:
                 if API_OF[m] == IAM and own_all(cfg) and m not in own_all(cfg):
-                    ctx.fail("iam-override-drops-all", f"{kind} client lacks {snake(m)}: configured, not defined by the API, dropped because the API "
+                    ctx.fail(iam_drop_key(cfg), f"{kind} client lacks {snake(m)}: configured, not defined by the API, dropped because the API "
                              f"defines {sorted(own_all(cfg))}", dict(payload, method=m, client=kind))
                 else:
                     ctx.fail("presence:missing", f"{kind} client lacks {snake(m)}", dict(payload, method=m, client=kind))
@@ -774,6 +786,13 @@ def corpus_cfgs():
     return out
 
 
+# (IAM RPCs the API defines itself, IAM RPCs that have a YAML rule): disjoint, overlapping, contained
+OWN_VS_RULES = [(["SetIamPolicy"], ["GetIamPolicy", "TestIamPermissions"]),
+                (["SetIamPolicy", "GetIamPolicy"], ["TestIamPermissions"]),
+                (["SetIamPolicy", "GetIamPolicy"], ["GetIamPolicy", "TestIamPermissions"]),
+                (["TestIamPermissions"], ["SetIamPolicy", "GetIamPolicy", "TestIamPermissions"])]
+
+
 def matrix(r, thorough):
     """every subset of the three APIs x transports x the legacy option (x API-defined IAM RPCs)"""
     cfgs = []
@@ -786,12 +805,16 @@ def matrix(r, thorough):
                 if IAM in listed:
                     for own in (["SetIamPolicy"], ["GetIamPolicy", "TestIamPermissions"], list(IAM_METHODS)):
                         cfgs.append(gen_cfg(r, listed=listed, transport=tr, add_iam=False, own=own))
+                    for own, ir in OWN_VS_RULES:
+                        cfgs.append(gen_cfg(r, listed=listed, transport=tr, add_iam=False, own=own, iam_rules=ir))
     else:
         trs = ["grpc", "rest", "grpc+rest"]
         for k, listed in enumerate(subsets):
             cfgs.append(gen_cfg(r, listed=listed, transport=trs[k % 3] if k % 4 else "grpc+rest", add_iam=(k in (0, 5)), own=[]))
         cfgs.append(gen_cfg(r, listed=[OPS, IAM], transport="grpc", add_iam=False, own=["GetIamPolicy"]))
         cfgs.append(gen_cfg(r, listed=[IAM], transport="grpc+rest", add_iam=False, own=list(IAM_METHODS)))
+        for k, (own, ir) in enumerate(OWN_VS_RULES):
+            cfgs.append(gen_cfg(r, listed=[IAM] + ([OPS] if k % 2 else []), transport=trs[k % 3], add_iam=False, own=own, iam_rules=ir))
     return cfgs
 
 
